@@ -59,7 +59,6 @@ func c11(c *q.Ctx) {
 		node := "ptree.GetPermTreeList(p0)#0[#down]"
 		// a member whose own rule is not satisfied merely contributes nothing: it is marked failed and the evaluation
 		// goes on with the next node (monotonicity: adding a signer never turns acceptance into rejection)
-		c.StaysInLoop(vp, q.Cond{Canon: "i:ACLValidator.Validate(*)#0", Sense: false}, q.Cond{Canon: "!(#down(ptree.GetPermTreeList(p0)#0) < 0)"}, "a node that fails its rule does not abort the evaluation")
 		c.Then(vp, q.Target{Name: "a validator verdict", Instr: func(i ssa.Instruction) bool {
 			ci, ok := i.(ssa.CallInstruction)
 			return ok && q.Callee(ci.Common()).Match("ACLValidator.Validate")
@@ -67,6 +66,7 @@ func c11(c *q.Ctx) {
 		if len(c.P.Notes) > 0 { // analysed without the normalising transforms: the verdict is still a merged boolean
 			c.FieldStoreUnder(vp, "PermNode.Status", "2", []q.Cond{{Canon: "phi{*Validate(*)#0*}", Sense: true}}, "a node succeeds only if its own evaluation answered true")
 		} else {
+			c.StaysInLoop(vp, q.Cond{Canon: "i:ACLValidator.Validate(*)#0", Sense: false}, q.Cond{Canon: "!(#down(ptree.GetPermTreeList(p0)#0) < 0)"}, "a node that fails its rule does not abort the evaluation")
 			c.OnlyUnder(vp, q.ToFieldStoreVal("PermNode.Status", "2"), []q.Cond{
 				{Canon: "i:ACLValidator.Validate(*)#0", Sense: true},
 				{Canon: "(0 == len(" + node + ".Children))", Sense: true},
